@@ -22,6 +22,14 @@ Theorem c11_snapshot_atomic_any_chunking target tmp d0 chunks k c :
   (content d target = content d0 target \/ content d target = Some (concat chunks)) /\ stable d target.
 Proof. exact (snapshot_atomic_chunks target tmp d0 chunks k c). Qed.
 
+(* write(fd, "", 0) is a no-op of the model: the state - hence the content and every crash image - is unchanged,
+   wherever it occurs in an operation sequence. Together with the theorem above (all chunkings) this is what
+   justifies comparing the recorded trace with the protocol up to how the bytes are split into write calls. *)
+Theorem c11_zero_length_write_is_noop s h : step s (Write h []) = s.
+Proof. exact (write_nil_noop s h). Qed.
+Theorem c11_zero_length_write_anywhere ops1 ops2 h s : run (ops1 ++ Write h [] :: ops2) s = run (ops1 ++ ops2) s.
+Proof. exact (run_write_nil ops1 ops2 h s). Qed.
+
 (* what the loader reads (a missing file reads as no bytes) *)
 Theorem c11_loader_input_old_or_new target tmp d0 new k c :
   tmp <> target -> stable d0 target ->
